@@ -57,5 +57,7 @@ def run(ctx, facts):
         C09.dens_seed(ctx, facts, prefix)
         C09.bookkeeping(ctx, facts, prefix)
         C09.empty_guard(ctx, facts, prefix)
+    ctx.rule("U32VIEW", C09.RULES["U32VIEW"] + " (the u32 view keeps the collision structure of the u64 view only if it rehashes all 64 bits of each value)")
+    C09.u32view(ctx, facts)
     ctx.rule("REINIT", C09.RULES["REINIT"])
     C13.require_verified_reset(ctx, facts, [C13.OD, C13.RD], "REINIT")
